@@ -4,12 +4,18 @@
 mod c01;
 mod c02;
 mod c04;
+mod c06;
 mod coin;
 mod c13;
 mod dispatch;
+mod hostile;
 mod pipe;
 mod proto;
 mod simio;
+mod wire;
+
+#[global_allocator]
+static ALLOC: simcore::meter::Meter = simcore::meter::Meter;
 
 fn main() {
     let args: Vec<String> = std::env::args().skip(1).collect();
@@ -21,6 +27,7 @@ fn main() {
         "C01" => c01::spec(),
         "C02" => c02::spec(),
         "C04" => c04::spec(),
+        "C06" => c06::spec(),
         "C13" => c13::spec(),
         _ => {
             eprintln!("HARNESS-ERROR unknown property {id} for this build");
